@@ -43,7 +43,8 @@
 // Convergence constants K_opt (frozen): calibrated on the unchanged tree (known findings excluded) and on a copy with all
 // proposed fixes (no exclusion), >= 10x above the worst ratio err/scale seen (evidence: "conv_ratio_<optimiser>"):
 //   worst seen   bfgs 0.77  cg 0.32  powell 2.6  simplex 4.3 (fixed copy)  simple 0.38  simple-newton 0.38
-//                brent 0.014 / 0.007  golden 0.027 (fixed copy)  newton-1d 0 (exact)  meta 2.1
+//                brent 0.044 / 0.007  golden 0.027 (fixed copy)  newton-1d 0 (exact)  meta 0.7 (2.1 on the fixed copy)
+//   (thorough tier seed 1: 30272 unexcluded Le cases; plus 8 seeds x 1500 cases on each tree)
 // Debugging: C10_TRACE=1 prints every case before it is run (and its cost), C10_RATIO=x prints Le cases above ratio x.
 #include "common/pbt.hpp"
 #include "common/bppcommon.hpp"
@@ -517,6 +518,16 @@ unsigned defaultCap(int opt) {
   switch (opt) { case DSM: return 5000; case BRENT_OUT: case BRENT_IN: case GOLDEN: case NEWTON1D: return 10000; default: return 1000000; }
 }
 
+void excludeMetaStale(vf::Ctx& c, const Case& k);
+// A run started at the exact minimiser (default cap) that used up its evaluation allowance: violation in every law.
+void checkBudgetAbort(vf::Ctx& c, const Case& k, const Out& o) {
+  if (!o.budgetAbort) return;
+  if (usesKind(k, POWELL) && k.spec.d == 0) c.excludeIfKnown("C10-powell-nan-stop");
+  if (k.opt == META && k.metaN >= 2 && o.fStart <= 0) c.excludeIfKnown("C10-meta-log10-initial-value");
+  excludeMetaStale(c, k);  // the sub-optimisers keep undoing each other's work on a function nobody synchronises
+  CHECK(false, "started at the exact minimiser with the default cap and still running after " << AT_MIN_EVALS << " objective evaluations (the stop test is never met)");
+}
+
 // Exceptions: a ConstraintException is an accepted outcome under the keep policy when constraints exist (the run is
 // then not assessed any further: Skip-like early return value true); anything else is a violation in every law.
 bool acceptedAbort(vf::Ctx& c, const Case& k, const Out& o) {
@@ -524,11 +535,7 @@ bool acceptedAbort(vf::Ctx& c, const Case& k, const Out& o) {
   if (o.constraintExc && k.policy == KEEP && k.anyCons) { c.label("keep_constraint_exception"); return true; }
   // MetaOptimizer keeps the constraints on its per-optimiser parameter lists under the ignore policy
   if (o.constraintExc && k.opt == META && k.policy == IGNORE && k.anyCons) c.excludeIfKnown("C10-meta-ignore-keeps-constraints");
-  if (o.budgetAbort) {
-    if (usesKind(k, POWELL) && k.spec.d == 0) c.excludeIfKnown("C10-powell-nan-stop");
-    if (k.opt == META && k.metaN >= 2 && o.fStart <= 0) c.excludeIfKnown("C10-meta-log10-initial-value");
-    CHECK(false, "started at the exact minimiser with the default cap and still running after " << AT_MIN_EVALS << " objective evaluations (the stop test is never met)");
-  }
+  checkBudgetAbort(c, k, o);
   CHECK(false, "an exception escaped the optimiser: " << o.exc);
   return true;
 }
@@ -590,6 +597,10 @@ LAW(Lc_consistency, RC, 1500, 50000, 160, NTR, 60, false) {
   ntRule(c, k, o);
   if (acceptedAbort(c, k, o)) return;
   excludeMetaStale(c, k);
+  // downhill simplex: when all vertex values tie, the vertex taken as "lowest" at the start of the last step is also the
+  // "highest" and is replaced during the step; optimize() then evaluates (and returns) the replaced vertex while
+  // getParameters() still holds the old one. Footprint: the function is left on another point than the reported one.
+  if (usesKind(k, DSM) && o.objAt != o.rep) c.excludeIfKnown("C10-dsm-stale-indices");
   CHECK(vf::sameBits(o.ret, o.fv), "optimize() returned " << vf::dec(o.ret) << " but getFunctionValue() is " << vf::dec(o.fv));
   CHECK(vf::sameBits(o.ret, o.fRep), "optimize() returned " << vf::dec(o.ret) << " but the objective at getParameters()=" << showVec(o.rep) << " is " << vf::dec(o.fRep));
   for (size_t i = 0; i < o.rep.size(); ++i)
@@ -629,7 +640,9 @@ LAW(Ld_budget, RC, 1500, 50000, 160, "a small cap that is hit", 60, false) {
 namespace {
 // per-optimiser constants (see the header comment)
 //                        bfgs  cg  powell  simplex  simple  s-newton  brent-out  brent-in  golden  newton-1d  (linesearch)  meta
-const double KOPT[NOPT] = {10,   3,  30,     50,      5,      5,        0.2,       0.2,      0.2,    0.01,      0,            30};
+const double KOPT[NOPT] = {10,   5,  30,     50,      5,      5,        3,         3,        3,      0.01,      0,            30};
+// Brent and golden section stop on a *relative* abscissa tolerance (about 2 tau |x|, |x| <= 13 here): up to ~0.8 scale in
+// the worst case (tau = 1e-4, lambda = 10) although the parabolic steps of Brent usually land much closer (0.044 seen).
 }
 LAW(Le_convergence, RC, 1500, 50000, 160, "dim >= 2 or start within 1e-6 of the optimum", 60, false) {
   Filter f; f.quadOnly = true; f.allowSmallCap = false; f.needCons = -1; f.convergence = true;
@@ -683,6 +696,7 @@ LAW(Lf_feasible_auto, RC, 1500, 50000, 160, "start within 10% of a bound", 60, f
   c.desc << showCase(k);
   Out o = runCase(c, k);
   c.label(ONAME[k.opt]); c.nt(k.activeSide);
+  checkBudgetAbort(c, k, o);
   CHECK(o.exc.empty(), "an exception escaped under the automatic policy: " << o.exc);
   const Record& r = o.obj->rec;
   for (size_t e = 0; e < r.count(); ++e)
